@@ -260,6 +260,17 @@ def run(ctx, load):
         if k[0].startswith('C14.'):
             ctx.floors.pop(k)
     ctx.floor('C15.literal-formats', 3)
+    # the String sink keeps every character it was given and reports their number (shared with C14 / C16): a dropped
+    # character shifts everything written after it and the reader then sees different text
+    from .rules_c14 import check_string_sink
+    before = len(ctx.obs)
+    check_string_sink(P, ctx)
+    for o in ctx.obs[before:]:
+        o['rule'] = 'C15.sink-keeps-all'
+    for k in list(ctx.floors):
+        if k[0].startswith('C14.'):
+            ctx.floors.pop(k)
+    ctx.floor('C15.sink-keeps-all', 2)
 
 
 EXPLANATION = (
